@@ -108,6 +108,9 @@ PlainObj   == \A i \in nodes : (obj[i] = PlainTok) = (built = "plain")
 DPanicLeavesUnchanged == [][last' = "panic" => UNCHANGED <<nodes, edges, built>>]_dvars
 
 (**************************** generator role (R2) ***************************)
+\* (the wrapper views - graph.Undirect / UndirectWeighted / Complement, GraphSet.tla - hand out the node
+\* objects "stored in the original graph": the "v" record carries obj as well)
 DEmitState ==
-  Emit => PrintT(ToJson(StateAnswers @@ [built |-> built, obj |-> {<<i, obj[i]>> : i \in nodes}]))
+  Emit => /\ PrintT(ToJson(StateAnswers @@ [built |-> built, obj |-> {<<i, obj[i]>> : i \in nodes}]))
+          /\ PrintT(ToJson(ViewAnswers @@ [built |-> built, obj |-> {<<i, obj[i]>> : i \in nodes}]))
 =============================================================================
